@@ -2,6 +2,8 @@ package dnsmsg
 
 import (
 	"sync"
+
+	"github.com/IrineSistiana/mosproxy/internal/verifhook"
 )
 
 const (
@@ -137,10 +139,18 @@ func (m *Msg) Len() (l int) {
 var msgPool = sync.Pool{New: func() any { return new(Msg) }}
 
 func NewMsg() *Msg {
+	if verifhook.On {
+		m := msgPool.Get().(*Msg)
+		verifhook.Ev("obj.get", "msg", m)
+		return m
+	}
 	return msgPool.Get().(*Msg)
 }
 
 func ReleaseMsg(m *Msg) {
+	if verifhook.On {
+		verifhook.Ev("obj.release", "msg", m)
+	}
 	m.Header = Header{}
 
 	for _, q := range m.Questions {
